@@ -7,7 +7,7 @@ open SafeHtml
 
 inductive ExecErr where
   | exec          -- text/template returned an error (sanitizer error, bad field access, …)
-  | depth         -- "exceeded maximum template depth" (the model caps the call depth at 1000)
+  | depth         -- "exceeded maximum template depth" (the model caps the call depth at 2000; the real limit is 100000)
   | nilTree       -- a called template has a nil Tree: text/template dereferences it (run-time panic)
   | unsupported
   | fuel
@@ -141,7 +141,7 @@ def walkNode (plain : Bool) (text : TextSet) (depth : Nat) : Nat → Value → V
           | some pp => evalPipe dot root pp
         match dv with
         | .error er => ⟨out, some er⟩
-        | .ok d => if depth ≥ 1000 then ⟨out, some .depth⟩ else walkList plain text (depth + 1) f d d out tr.root
+        | .ok d => if depth ≥ 2000 then ⟨out, some .depth⟩ else walkList plain text (depth + 1) f d d out tr.root
       | some none => ⟨out, some .nilTree⟩
       | none => ⟨out, some .exec⟩
     | _ => ⟨out, some .unsupported⟩
